@@ -4,12 +4,14 @@
 //!
 //! Request lines (see `lean/MidnightZK/Driver/C10.lean`):
 //!   `pf <Field> <op> <hex…>`, `lf <Field> <op> <limbs…>`, `const <Field> <NAME>`, `tw <Tower> <op> …`,
-//!   `pl <Field> sum|product|batch_invert <list-descriptor>`, `pl <Field> chain <x0> <y> <prog> <n>` (see `batch.rs`).
+//!   `pl <Field> sum|product|batch_invert <list-descriptor>`, `pl <Field> chain <x0> <y> <prog> <n>` (see `batch.rs`),
+//!   `by …`, `byv …`, `jac …` (Bernstein–Yang inversion and Jacobi symbol with their loop states, see `byjac.rs`).
 //! Oracles checked here directly (→ `oracle_fail`): agreement of all operator variants (by
 //! value / by reference / in place), `x * x⁻¹ = 1`, `sqrt(x)² = x`, codec round trips, decoders
 //! rejecting every non-canonical encoding without panicking, batched = element-wise.
 
 mod batch;
+mod byjac;
 mod limbs;
 mod pf;
 mod tower;
@@ -56,5 +58,6 @@ fn main() {
     guarded(&mut ctx, "limbs", limbs::run);
     guarded(&mut ctx, "tower", tower::run);
     guarded(&mut ctx, "batch", batch::run);
+    guarded(&mut ctx, "byjac", byjac::run);
     ctx.finish();
 }
